@@ -273,6 +273,38 @@ def same_events(version, strict):
                     out.append({"op": "Same", "how": how, "path": designators(chain), "v": cps(text), "pos": [], "outcome": outcome,
                                 "a": res[0][0], "enca": res[0][1], "b": res[1][0], "encb": res[1][1], "kind": "msg:" + ecname,
                                 "ver": version, "strict": strict, "pre": [], "post": [], "existing": existing})
+    # ... and after rounds of "write through the pending chain, delete its top element": what was created and deleted
+    # before must not matter either (a = fresh message, b = after `rounds` such rounds; the same final write)
+    for chain, makers, roles in SAME_CASES:
+        text = "".join({"C": "^", "S": "&", "R": "~"}.get(ch, ch) for ch in roles)
+        for how in ("value", "setattr"):
+            for rounds in (1, 2):
+                res = []
+                outcome = "ok"
+                for r_ in (0, rounds):
+                    try:
+                        m = Message("ADT_A01", version=version, validation_level=lvl)
+                        m.msh.msh_7 = "20200101"
+
+                        def write(t):
+                            x = m
+                            for a in chain[:-1]:
+                                x = getattr(x, a)
+                            if how == "value":
+                                getattr(x, chain[-1]).value = t
+                            else:
+                                setattr(x, chain[-1], t)
+                        for k_ in range(r_):
+                            write(text)
+                            delattr(m, chain[0])
+                        write(text)
+                        res.append((rows(m), cps(m.to_er7())))
+                    except Exception as ex:
+                        outcome = exc_name(ex)
+                        res.append(([], []))
+                out.append({"op": "Same", "how": how + ":after_%d_rounds" % rounds, "path": designators(chain), "v": cps(text), "pos": [],
+                            "outcome": outcome, "a": res[0][0], "enca": res[0][1], "b": res[1][0], "encb": res[1][1], "kind": "msg:rounds",
+                            "ver": version, "strict": strict, "pre": [], "post": [], "existing": -rounds})
     return out
 
 
